@@ -114,6 +114,24 @@ def mergeRef (ow : Bool) (old : Option Rat) (new : Rat) : Except UErr (Option Ra
   | some o => if !ow && !isclose new o then .error .readOnly else .ok (some new)
   | none => .ok (some new)
 
+/-- 269-279: the new reference enthalpy; `test` is the temporary correlation -/
+def newH (ev : RawEval) (ow : Bool) (c d test : Corr) : Except UErr (Option Rat) :=
+  match d.H with
+  | some _ =>
+    match getH ev test c.Tref with
+    | .ok nh => mergeRef ow c.H nh
+    | .error e => .error e
+  | none => .ok c.H
+
+/-- 281-291: the new reference entropy -/
+def newS (ev : RawEval) (ow : Bool) (c d test : Corr) : Except UErr (Option Rat) :=
+  match d.S with
+  | some _ =>
+    match getS ev test c.Tref with
+    | .ok ns => mergeRef ow c.S ns
+    | .error e => .error e
+  | none => .ok c.S
+
 /-- 254-291: the new reference values, through the temporary correlation -/
 def mergeRefs (ev : RawEval) (ow : Bool) (c d : Corr) (cp : List (Rat × Rat)) (range : Option (Rat × Rat)) :
     Except UErr (Option Rat × Option Rat) :=
@@ -122,16 +140,12 @@ def mergeRefs (ev : RawEval) (ow : Bool) (c d : Corr) (cp : List (Rat × Rat)) (
     | .error e => .error (UErr.ofC e)
     | .ok () =>
       let test : Corr := ⟨d.H, d.S, cp, d.Tref, range⟩
-      do
-        let H ← if d.H.isSome then do
-            let nh ← getH ev test c.Tref
-            mergeRef ow c.H nh
-          else pure c.H
-        let S ← if d.S.isSome then do
-            let ns ← getS ev test c.Tref
-            mergeRef ow c.S ns
-          else pure c.S
-        pure (H, S)
+      match newH ev ow c d test with
+      | .error e => .error e
+      | .ok H =>
+        match newS ev ow c d test with
+        | .error e => .error e
+        | .ok S => .ok (H, S)
   else .ok (c.H, c.S)
 
 /-- `_setup_correlation()` on committed fields: deletes `_correlation`, rebuilds it when there is a table -/
